@@ -185,7 +185,9 @@ def run_case(p, drv):
         model = build_model(p)
         model.fit(Xtr, ytr, Xva, yva)
     except Exception as e:
+        import traceback
         fit_error = e
+        fit_trace = ' | '.join(l.strip() for l in traceback.format_exc().splitlines()[-7:])
     finally:
         rfm_mod.RFM.fit = orig_fit
     auc_undefined = p['metric'] == 'auc' and any(c is None or len(c) < K for c in leaf_val_classes)
@@ -195,7 +197,7 @@ def run_case(p, drv):
         res['nontrivial'] = None
         return res
     if fit_error is not None:
-        fail(f'C12:fit-raises:{type(fit_error).__name__}', f'{type(fit_error).__name__}: {fit_error}')
+        fail(f'C12:fit-raises:{type(fit_error).__name__}', f'{type(fit_error).__name__}: {fit_error} [{fit_trace}]')
         return res
     try:
         P = model.predict_proba(Xq)
